@@ -708,6 +708,11 @@ class Ev:
         if isinstance(a, Tup) and isinstance(op, ast.Mult) and is_sym(b) and b.is_Integer:
             return Tup(a.items * int(b), a.kind)
         if isinstance(a, ArrV) or isinstance(b, ArrV):
+            # a plain list of numbers broadcasts like a one-dimensional array
+            if isinstance(a, Tup) and a.kind in ("list", "tuple"):
+                a = _as_arr(self, a, n, mod)
+            if isinstance(b, Tup) and b.kind in ("list", "tuple"):
+                b = _as_arr(self, b, n, mod)
             return self.arr_binop(op, a, b, n, mod)
         if isinstance(op, ast.MatMult):
             return MatProd(as_sym(a), as_sym(b))
@@ -3140,6 +3145,15 @@ def lib_repeat(ev, a, k, n, mod):
 
 
 lib_repeat.kw = {"axis", "repeats"}
+def lib_arange(ev, a, k, n, mod):
+    vals = [_const_int(x) for x in a]
+    out = ArrV(0, (len(range(*vals)),))
+    out.cells = {(i,): sp.Integer(v) for i, v in enumerate(range(*vals))}
+    return out
+
+
+lib_arange.kw = {"dtype"}
+LIB.update({"numpy.arange": lib_arange})
 LIB.update({"numpy.transpose": lib_transpose, "ndarray.transpose": lib_transpose, "numpy.stack": lib_stack("stack"), "numpy.column_stack": lib_stack("column_stack"),
             "numpy.vstack": lib_stack("vstack"), "numpy.hstack": lib_stack("hstack"), "numpy.repeat": lib_repeat})
 LIB.update({"numpy.clip": lib_clip, "ndarray.clip": lib_clip, "numpy.maximum": lib_minmax2("MAXIMUM"), "numpy.minimum": lib_minmax2("MINIMUM"),
